@@ -67,7 +67,9 @@ func c06Harness(c *engine.Ctx, mode string, dir string) {
 			bound = "3"
 		}
 		cmd := exec.Command(bin, "-shard", fmt.Sprint(c.Shard), "-n", fmt.Sprint(c.NShards), "-tier", c.Tier, "-mode", mode, "-skip", skipFile, "-racelog", raceLog, "-bound", bound)
-		cmd.Env = append(os.Environ(), "GORACE=log_path="+raceLog+" halt_on_error=0 history_size=4")
+		modDir := filepath.Join(WorkDir(), fmt.Sprintf("c06h-mods-%d", c.Shard))
+		defer os.RemoveAll(modDir)
+		cmd.Env = append(os.Environ(), "C06H_MODDIR="+modDir, "GORACE=log_path="+raceLog+" halt_on_error=0 history_size=4")
 		var so, se bytes.Buffer
 		cmd.Stdout, cmd.Stderr = &so, &se
 		cmd.Run()
